@@ -27,6 +27,8 @@ import TableauVerif.Model.Literal
 import TableauVerif.Spec.C03
 import TableauVerif.Spec.C03Frac
 import TableauVerif.Model.Fraction
+import TableauVerif.Model.Duration
+import TableauVerif.Spec.C20Dur
 namespace Driver
 open TableauVerif TableauVerif.Model
 
@@ -319,8 +321,25 @@ def decTRes? (s : String) : Option Time.TRes :=
   | ["okn", _, _] => some .unmodelled      -- sub-second instant (fractional seconds in the cell)
   | _ => none
 
+def encDRes : Model.Duration.DRes → String
+  | .ok d => let (s, n) := Model.Duration.toSecNanos d; s!"ok {s} {n}"
+  | .absent => "absent"
+  | .err => "err"
+  | .unmodelled => "unmodelled"
+
+def decDRes? (s : String) : Option Model.Duration.DRes :=
+  match s.splitOn " " with
+  | ["ok", a, b] => do
+    let x ← a.toInt?; let y ← b.toInt?
+    some (.ok (x * 1000000000 + y))
+  | ["absent"] => some .absent
+  | ["err"] => some .err
+  | _ => none
+
 def c20 (fn : String) (a : List String) : Option String := do
   match fn, a with
+  | "c20.dur", [raw] => some (encDRes (Model.Duration.parseCell (← decStr? raw)))
+  | "o.c20.dur", [raw, obs] => some (Spec.C20Dur.holdsDur (← decStr? raw) (← decDRes? obs))
   | "c20.ts", [_name, zone, raw] => some (encTRes (Time.parseTimestamp (← decZone? zone) (← decStr? raw)))
   | "c20.gen", [_loc, _machine, _eff, zone, raw] => some (encTRes (Time.parseTimestamp (← decZone? zone) (← decStr? raw)))
   | "o.c20.gen", [_loc, _machine, _eff, zone, raw, obs] =>
